@@ -158,18 +158,6 @@ fn resolve_in_scope(
     column: &str,
     table: Option<&str>,
 ) -> ScopeResult<ResolvedColumn> {
-    // For unqualified columns, check output aliases first
-    if table.is_none() {
-        if let Some(dtype) = scope.get_output_alias(column) {
-            return Ok(ResolvedColumn {
-                scope_index: 0,
-                column_idx: 0, // Not meaningful for aliases
-                data_type: dtype,
-                table_id: None,
-            });
-        }
-    }
-
     if let Some(table_name) = table {
         // Qualified column: table.column
         let entry = scope
@@ -223,10 +211,20 @@ fn resolve_in_scope(
         }
 
         match found_count {
-            0 => Err(ScopeError::NotFound(DatabaseItem::Column(
-                "unqualified".to_string(),
-                column.to_string(),
-            ))),
+            // A name that is not a column of the FROM clause may still be an output alias. (Inside
+            // an expression a real column wins: the alias placeholder carries no usable position.)
+            0 => match scope.get_output_alias(column) {
+                Some(dtype) => Ok(ResolvedColumn {
+                    scope_index: 0,
+                    column_idx: 0, // Not meaningful for aliases
+                    data_type: dtype,
+                    table_id: None,
+                }),
+                None => Err(ScopeError::NotFound(DatabaseItem::Column(
+                    "unqualified".to_string(),
+                    column.to_string(),
+                ))),
+            },
             1 => Ok(found.unwrap()),
             _ => Err(ScopeError::AmbiguousColumn(column.to_string())),
         }
